@@ -706,9 +706,14 @@ func vfC08Run(t *testing.T, cs vfC08Case, out *vfC08Out, isKnown func(string) bo
 				}
 			case vfC08Subscribe:
 				ch := chName(s.Ch)
-				if inPar && !s.Gate {
-					// an un-gated subscribe never overlaps operations started by the previous step (see generator note)
+				if inPar {
+					// A subscribe never overlaps operations started by the previous step: un-gated, "established" would be
+					// undefined (see generator note); gated, several closes spawned by one earlier step (insufficient state)
+					// would queue on connectMu behind the one waiting for the parked subscribe (harness limit, see below).
 					vfSettle()
+					for k := range closeSinceSettle {
+						delete(closeSinceSettle, k)
+					}
 				}
 				if s.Server || k.cfg.Uni {
 					if !connectSeen(k) {
